@@ -272,6 +272,40 @@ let frame_line line =
      | M.RPanic _ -> "panic")
   | _ -> "bad"
 
+(* ---- the crate's own I/O layer: io rx|take|wa ... (same lines as harness18) ---- *)
+let rec repeat_n x n = if n <= 0 then [] else x :: repeat_n x (n - 1)
+let io_line line =
+  match List.filter (fun x -> x <> "") (split_on ' ' line) with
+  | ["rx"; need; chunk; data] ->
+    let need = int_of_string need and chunk = int_of_string chunk and d = unhex data in
+    let script = if chunk = 0 then [] else repeat_n (M.RChunk (nat_of_int (chunk - 1))) (need + 2) in
+    let r = { M.sr_data = d; M.sr_script = script } in
+    let ((got, err), r') = M.io_read_exact (nat_of_int (2 * need + 8)) r (nat_of_int need) [] in
+    let pad = repeat_n (z_of_int 0xEE) (need - List.length got) in
+    Printf.sprintf "%s %s consumed=%d" (match err with None -> "ok" | Some _ -> "err") (hex (got @ pad))
+      (List.length d - List.length r'.M.sr_data)
+  | ["take"; limit; chunk; bufsize; data] ->
+    let chunk = int_of_string chunk and bufsize = max 1 (int_of_string bufsize) and d = unhex data in
+    let script = if chunk = 0 then [] else repeat_n (M.RChunk (nat_of_int (chunk - 1))) (List.length d + 4) in
+    let t = ref { M.tk_inner = { M.sr_data = d; M.sr_script = script }; M.tk_limit = z_of_string limit } in
+    let out = ref [] and calls = ref 0 and go = ref true in
+    while !go do
+      (match M.io_take_read !t (nat_of_int bufsize) with
+       | (M.Inl [], t') -> t := t'; go := false
+       | (M.Inl bytes, t') -> t := t'; out := !out @ bytes; incr calls
+       | (M.Inr _, t') -> t := t'; go := false)
+    done;
+    Printf.sprintf "ok %s limit=%s consumed=%d calls=%d" (hex !out) (z_to_string (!t).M.tk_limit)
+      (List.length d - List.length (!t).M.tk_inner.M.sr_data) !calls
+  | ["wa"; room; data] ->
+    let room = int_of_string room and d = unhex data in
+    let script = if room = 0 then [M.WZero] else [M.WChunk (nat_of_int (room - 1)); M.WZero] in
+    let (err, w') = M.io_write_all (nat_of_int (List.length d + 8)) { M.sw_out = []; M.sw_script = script } d in
+    let written = w'.M.sw_out in
+    Printf.sprintf "%s %s left=%d" (match err with None -> "ok" | Some _ -> "err")
+      (hex (written @ repeat_n (z_of_int 0xEE) (room - List.length written))) (room - List.length written)
+  | _ -> "bad"
+
 let () =
   let cmd = if Array.length Sys.argv > 1 then Sys.argv.(1) else "" in
   let f = match cmd with
@@ -280,6 +314,7 @@ let () =
     | "huf" -> huf_line
     | "matcher" -> matcher_line
     | "frame" -> frame_line
+    | "io" -> io_line
     | _ -> prerr_endline "usage: driver <prog|fse|huf> < cases"; exit 2 in
   (try
     while true do
